@@ -171,7 +171,8 @@ def observe(backend, st, h):
     O[("parity", (0, 1))] = float(np.real(st.parity_expectation([0, 1])))
     O[("fidelity_vacuum",)] = float(np.real(st.fidelity_vacuum()))
     O[("fidelity_coherent",)] = float(np.real(st.fidelity_coherent([0.2 + 0.1j, -0.3j])))
-    O[("purity",)] = float(np.real(st.purity()))
+    if hasattr(st, "purity"):  # Fock and bosonic states
+        O[("purity",)] = float(np.real(st.purity()))
     if backend != B:
         O[("number_expectation", (0, 1))] = np.array(st.number_expectation([0, 1]), dtype=float)
         A = np.zeros((4, 4))
@@ -213,7 +214,8 @@ def observe1(backend, st, h):
     O[("parity", (0,))] = float(np.real(st.parity_expectation([0])))
     O[("fidelity_vacuum",)] = float(np.real(st.fidelity_vacuum()))
     O[("fidelity_coherent",)] = float(np.real(st.fidelity_coherent([0.2 + 0.1j])))
-    O[("purity",)] = float(np.real(st.purity()))
+    if hasattr(st, "purity"):  # Fock and bosonic states
+        O[("purity",)] = float(np.real(st.purity()))
     if backend == G:
         O[("is_coherent",)] = [bool(st.is_coherent(0))]
         O[("is_squeezed",)] = [bool(st.is_squeezed(0))]
